@@ -69,7 +69,9 @@ func init() {
 		return L(out...)
 	})
 	regOp("cc_read", func(a []Sx) Sx {
-		chain, err := certurl.ReadCertChain(bytes.NewReader(a[0].B))
+		src, spoil := ownedSrc(a[0].B)
+		chain, err := certurl.ReadCertChain(src)
+		spoil()
 		if err != nil {
 			return ErrV()
 		}
